@@ -46,6 +46,9 @@ type Script struct {
 	NoGreetProbe bool `json:"no_greet_probe,omitempty"`
 	// JitterUS: per-reply delays in microseconds, cycled.
 	JitterUS []int `json:"jitter_us,omitempty"`
+	// RejectRcptPrefix: every RCPT whose path starts with this prefix is answered 550 (unless the
+	// step has a scripted outcome of its own).
+	RejectRcptPrefix string `json:"reject_rcpt_prefix,omitempty"`
 }
 
 func (s *Script) outcome(step string) Outcome {
@@ -791,7 +794,11 @@ func (s *Server) serve(rawConn net.Conn, implicitTLS bool, sess *Session) {
 			}
 			checkParams(sess, "RCPT", cmd.params, caps, esmtp)
 			r := Rcpt{Path: cmd.path, Params: cmd.params, Step: step}
-			code := send("250 2.1.5 recipient ok [" + step + "]")
+			def := "250 2.1.5 recipient ok [" + step + "]"
+			if sc.RejectRcptPrefix != "" && strings.HasPrefix(cmd.path, sc.RejectRcptPrefix) {
+				def = "550 5.1.1 no such user [" + step + "]"
+			}
+			code := send(def)
 			if code == -1 {
 				txn.Rcpts = append(txn.Rcpts, r)
 				return
